@@ -30,6 +30,10 @@ def run(ctx):
     progs, pool = F.c05_siblings(ctx.tier, rnd)
     agg = run_family("C05sib", progs, sorted(set(pool) | {"error"}), dev=dev, invariants=INVS, perms=(0, 1), timeout=900)
     ctx.add_family(agg)
+    # globals defined (or re-defined) inside macros persist after the macro returns; macro locals do not escape
+    mprogs = [p for p in F.c09_family(ctx.tier, rnd) if p["fam"].startswith(("C09:P2", "C09:P7"))]
+    agg = run_family("C05macros", mprogs, ["x", "y", "g", "macroname", "error"], dev=dev, invariants=INVS, perms=(0,), timeout=900)
+    ctx.add_family(agg)
     for f in ctx.known():
         ctx.witness(f)
     scope_check.run(ctx, rnd)
